@@ -16,7 +16,8 @@ EMU_TRUSTED = [
 def nt03(c):
     t = c.tags
     return ("emu" in t and "steps0-1" not in t and "setup-fail" not in t and
-            any(x in t for x in ("composed-load", "cut-load", "straddle", "jump-taken", "err-end", "atomic")))
+            any(x in t for x in ("composed-load", "cut-load", "straddle", "jump-taken", "err-end", "atomic",
+                                 "access-err")))
 
 
 def nt04(c):
@@ -26,7 +27,7 @@ def nt04(c):
 
 
 reg(Prop("C03",
-         [("emu", ge.g_emu, 4), ("emu_mem", ge.g_emu_mem, 1)],
+         [("emu", ge.g_emu, 4), ("emu_mem", ge.g_emu_mem, 1), ("emu_top", ge.g_emu_top, 1)],
          nt03,
          "RV64IMA programs assembled from the reference encodings: straight-line ALU code (boundary immediates, W forms, "
          "lui/auipc, CSR, fences), loops with backward branches, forward branches, jal/jalr calls and returns, sb/sh/sw/sd "
@@ -38,13 +39,18 @@ reg(Prop("C03",
          "model step by step (report, provider calls, full register map, sparse layer) and against the reference "
          "machine after every step (IP, every held register, every byte either side wrote, the access report with "
          "values); non-trivial = at least 2 steps executed and a composed / cut / straddling load, a taken jump, an "
-         "atomic, or a run ending in the expected error",
+         "atomic, or a run ending in the expected error; one stream (and a shape of the mixed stream) aims loads, stores "
+         "and atomics at the top of the address space (range ending at, just below, just beyond 2^64; through x0 with "
+         "negative immediates, pre-set registers, registers answered 0xff.. by the provider)",
          3000, 120000, trusted=EMU_TRUSTED, pre=[rvgen.regenerate],
-         assumptions=["memory accesses with addr + width < 2^64 (C14 domain); programs that store into their code "
+         assumptions=["refinement is claimed for memory accesses with addr + width < 2^64 (C14 domain); for an access "
+                      "that leaves the address space the oracle demands the error of Step with the architectural "
+                      "state (held registers, written bytes, instruction pointer) equal to the reference's state "
+                      "before the step (F45); a panic is a failure everywhere; programs that store into their code "
                       "blocks are outside the property: the oracle stops judging at the first such step"]))
 
 reg(Prop("C04",
-         [("emuq", ge.g_emuq, 3), ("emuq_unknown", ge.g_emuq_unknown, 2)],
+         [("emuq", ge.g_emuq, 3), ("emuq_unknown", ge.g_emuq_unknown, 2), ("emuq_top", ge.g_emuq_top, 1)],
          nt04,
          "the same programs, with only the buffer pointer pre-set in two thirds of the second stream so that most state "
          "comes from the provider: every provider call of every step is compared with the model's and judged against "
